@@ -57,6 +57,23 @@ func Families(family string, seed int64, count int) []Driver {
 			c := fcConfigs()[i%2]
 			d := []string{"cancel", "cancel", "fail", "chclose", "ctxend"}[i%5]
 			out = append(out, newWorkload(name, s, workloadOpts{cfg: c, nRPC: 1 + rng.Intn(3), noReader: true, streamingOnly: true, disturb: d}))
+		case "rawc":
+			c := []Config{{Mode: "fwd", RawClient: true}, {Mode: "rev", RawClient: true}, {Mode: "fwd", RawClient: true, SDisable: true}}[i%3]
+			out = append(out, newRawClient(name, s, c, true))
+		case "rawcok":
+			// a conforming raw client, including a legacy one that does not advertise negotiation
+			c := []Config{{Mode: "fwd", RawClient: true}, {Mode: "fwd", RawClient: true, CLegacy: true}, {Mode: "rev", RawClient: true}, {Mode: "rev", RawClient: true, CLegacy: true}}[i%4]
+			out = append(out, newRawClient(name, s, c, false))
+		case "raws":
+			c := []Config{{Mode: "fwd", RawServer: true}, {Mode: "rev", RawServer: true}}[i%2]
+			out = append(out, newRawServer(name, s, c, true, false))
+		case "nego":
+			// every settings message (revision lists incl. empty / unknown / duplicate / unsorted,
+			// windows, wrong id, wrong first frame, missing) x client with flow control on / off,
+			// and legacy servers
+			c := []Config{{Mode: "fwd", RawServer: true}, {Mode: "rev", RawServer: true}, {Mode: "fwd", RawServer: true, CDisable: true},
+				{Mode: "rev", RawServer: true, CDisable: true}, {Mode: "fwd", RawServer: true, SLegacy: true}, {Mode: "rev", RawServer: true, SLegacy: true}}[i%6]
+			out = append(out, newRawServer(name, s, c, false, true))
 		case "nohol":
 			c := fcConfigs()[i%2]
 			out = append(out, newWorkload(name, s, workloadOpts{cfg: c, nRPC: 2 + rng.Intn(2), noReader: true, streamingOnly: true}))
